@@ -455,16 +455,25 @@ pub fn run(ctx: &'static Ctx, p: P) {
                     }
                 }
             }
-            progs.extend(value_programs(t, quick, false));
             sum_programs = progs.len() as u64;
-            let j: u64 = progs
-                .par_iter()
-                .map(|(name, ops)| {
-                    let l = seq::Lane { name: format!("bytesum:{}", name), ops: ops.clone() };
-                    seq::run_lane(ctx, t, &c0, &l, &|_k| (true, false), &|v| judge(ctx, p, v))
-                })
-                .sum();
-            lane_prefixes += j;
+            let run_chunk = |progs: &Vec<(String, Vec<Op>)>| -> u64 {
+                progs
+                    .par_iter()
+                    .map(|(name, ops)| {
+                        let l = seq::Lane { name: format!("bytesum:{}", name), ops: ops.clone() };
+                        seq::run_lane(ctx, t, &c0, &l, &|_k| (true, false), &|v| judge(ctx, p, v))
+                    })
+                    .sum()
+            };
+            lane_prefixes += run_chunk(&progs);
+            drop(progs);
+            let (mut vp, mut vj) = (0u64, 0u64);
+            value_programs(t, quick, false, &mut |chunk| {
+                vp += chunk.len() as u64;
+                vj += run_chunk(&chunk);
+            });
+            sum_programs += vp;
+            lane_prefixes += vj;
         }
         // the same value sweep for the constructor's own arguments, each followed by one operation of every kind
         let mut ctor_programs = 0u64;
@@ -531,7 +540,9 @@ pub fn run(ctx: &'static Ctx, p: P) {
 /// util::value_set, crossed with the enumerated / boolean arguments of the same entry; then pairs of arguments equal /
 /// adjacent / doubled, and an argument equal to the entry's own position. `options_only` keeps the kinds that have an
 /// enumerated or boolean argument or more than one shape (the option-bearing entries C11 is about).
-pub fn value_programs(t: &dyn Table, quick: bool, options_only: bool) -> Vec<(String, Vec<Op>)> {
+/// The programs are handed to `sink` in chunks of at most ~100 000 (the thorough sets run to tens of millions per table;
+/// materialising them at once exhausted memory).
+pub fn value_programs(t: &dyn Table, quick: bool, options_only: bool, sink: &mut dyn FnMut(Vec<(String, Vec<Op>)>)) {
     let mut progs: Vec<(String, Vec<Op>)> = vec![];
     // value sweep (the value principle, DESIGN.md 8): every numeric or byte-array argument of every kind and shape
     // through util::value_set, crossed with the enumerated / boolean arguments of the same entry; then pairs of
@@ -542,7 +553,10 @@ pub fn value_programs(t: &dyn Table, quick: bool, options_only: bool) -> Vec<(St
             continue;
         }
         let mut seen_sigs: Vec<Vec<crate::tables::FT>> = vec![];
-        for shape in t.shapes(k).into_iter().take(shape_cap) {
+        for (shape_i, shape) in t.shapes(k).into_iter().take(shape_cap).enumerate() {
+            // thorough: the large value sets (whole 16-bit domains, all 256 values per byte lane) for the first two shapes of a
+            // kind (FADT: every shape = every field), the quick sets for the further shapes
+            let small_sets = quick || (shape_i >= 2 && t.name() != "fadt");
             let fields = t.fields(k, shape);
             if quick && seen_sigs.contains(&fields) && t.name() != "fadt" && seen_sigs.len() >= 2 {
                 continue;
@@ -558,7 +572,7 @@ pub fn value_programs(t: &dyn Table, quick: bool, options_only: bool) -> Vec<(St
                     _ => None,
                 })
                 .collect();
-            let combos = crate::util::enum_combos(&dims, if quick { 8 } else { 32 });
+            let combos = crate::util::enum_combos(&dims, if quick { 8 } else { 16 });
             let wide: Vec<(usize, u32)> = fields
                 .iter()
                 .enumerate()
@@ -573,7 +587,7 @@ pub fn value_programs(t: &dyn Table, quick: bool, options_only: bool) -> Vec<(St
             let pair_combos = if pair_combos.is_empty() { vec![vec![]] } else { pair_combos };
             for (i, b) in wide.iter().copied() {
                 let ordinary = crate::fill::Fill::b(2).raw(i as u8, b);
-                for val in crate::util::value_set(b, ordinary, quick) {
+                for val in crate::util::value_set(b, ordinary, small_sets) {
                     for combo in &combos {
                         let mut f = crate::fill::Fill::b(2).with(i as u8, val);
                         // at most 5 further overrides fit; longer combinations keep their first ones
@@ -583,6 +597,9 @@ pub fn value_programs(t: &dyn Table, quick: bool, options_only: bool) -> Vec<(St
                         let mut ops = pre.clone();
                         ops.push(Op { k, shape, fill: f });
                         progs.push((format!("{}[shape {} arg {} = {:#x} enums {:?}]", kname, shape, i, val, combo), ops));
+                    }
+                    if progs.len() >= 100_000 {
+                        sink(std::mem::take(&mut progs));
                     }
                 }
             }
@@ -603,6 +620,9 @@ pub fn value_programs(t: &dyn Table, quick: bool, options_only: bool) -> Vec<(St
                             ops.push(Op { k, shape, fill: f });
                             progs.push((format!("{}[shape {} args {} and {} {} enums {:?}]", kname, shape, i, j, name, combo), ops));
                         }
+                    }
+                    if progs.len() >= 100_000 {
+                        sink(std::mem::take(&mut progs));
                     }
                 }
             }
@@ -675,7 +695,9 @@ pub fn value_programs(t: &dyn Table, quick: bool, options_only: bool) -> Vec<(St
             }
         }
     }
-    progs
+    if !progs.is_empty() {
+        sink(progs);
+    }
 }
 
 pub fn rule(p: P) -> &'static str {
